@@ -14,13 +14,15 @@ pub fn run(env: &Env) {
     let nmax = if env.thorough() { 1100 } else { 300 };
     env.ctx.set_rule("(a) artefact replay: kinds {signature, proof, commitment, blind signature without/with commitment, blind proof} x producing suite x shapes (L, M) in [0..=2]^2 x header {none,16B}: the native verifier accepts (control) and EVERY foreign (suite', interface') verifier / signer refuses, including re-interpretations (blind artefact with concatenated message lists through the plain interface, plain artefact through the blind interface with L in {total, total-1, 0}); (b) generators: for 7 api_ids x 2 suites, create(N)[..k] = create(k) for EVERY k <= N = 300 (thorough 1100); each N-set duplicate-free, identity-free, P1-free, g1-free; sets of different (suite, api_id) pairwise disjoint; None == empty api_id. State = (artefact, foreign verifier) or (api_id, k); non-trivial = a real verifier/generator call was judged.");
     #[derive(Clone)]
-    enum Job { Replay(Suite, usize, usize, usize), Prefix(Suite, usize), Sets }
+    enum Job { Replay(Suite, usize, usize, usize), Prefix(Suite, usize), Sets, Prepare(Suite) }
     let mut jobs: Vec<(String, Job)> = Vec::new();
     for s in suites() {
         for l in 0..=2usize { for m in 0..=2usize { for h in 0..2usize { jobs.push((format!("{}/replay/L{}/M{}/h{}", s.name(), l, m, h), Job::Replay(s, l, m, h))); } } }
         for a in 0..7 { jobs.push((format!("{}/prefix/api{}", s.name(), a), Job::Prefix(s, a))); }
     }
     jobs.push(("generator-sets".into(), Job::Sets));
+    for s in suites() { jobs.push((format!("{}/prepare_parameters", s.name()), Job::Prepare(s))); }
+    crate::hist::explore_families(env, &['G'], "generator histories");
     par_for(&jobs, |_, (id, job)| {
         if !env.want(id) || env.ctx.out_of_time() { return; }
         match job.clone() {
@@ -114,6 +116,25 @@ pub fn run(env: &Env) {
                     }
                     env.ctx.trace();
                 }
+            }
+            Job::Prepare(s) => {
+                // the public helper that assembles signer generators ++ blind generators: for every api_id form the list must be the
+                // reference construction create(ng, api) ++ create(nbg, "BLIND_" || api), duplicate-free, and None == Some(empty)
+                let zk = z(s);
+                for (an, api) in api_ids(s, seed) { for ng in 1..=3usize { for nbg in 1..=3usize {
+                    env.ctx.state(&[id.as_bytes(), an.as_bytes(), &[ng as u8, nbg as u8]]);
+                    let got = zk.prepare_parameters(Some(&[]), Some(&[]), ng, nbg, None, api.as_deref()); env.ctx.step();
+                    let a = api.clone().unwrap_or_default();
+                    let want: Vec<[u8; 48]> = refbbs::create_generators(s, ng, &a).iter().chain(refbbs::create_generators(s, nbg, &refbbs::cat(&[b"BLIND_", &a])).iter()).map(|g| refbbs::g1_bytes(g)).collect();
+                    match got {
+                        O::Ok((_, g)) => {
+                            if g != want { env.ctx.violation("C11:prepare_parameters:generators-differ", &format!("prepare_parameters(api_id={}, {}, {}) does not return create(n, api) ++ create(m, BLIND_||api)", an, ng, nbg), env.case(id, json!({"suite": s.name(), "api_id": an, "generators_number": ng, "blind_generators_number": nbg}))); }
+                            let mut u = g.clone(); u.sort(); u.dedup(); if u.len() != g.len() { env.ctx.violation("C11:prepare_parameters:shared-generator", &format!("prepare_parameters(api_id={}, {}, {}) returns a list with a repeated point: the two interfaces' generator sets overlap", an, ng, nbg), env.case(id, json!({"suite": s.name(), "api_id": an}))); }
+                        }
+                        o => env.ctx.violation("C11:prepare_parameters:failed", &o.describe(), env.case(id, json!({"api_id": an}))),
+                    }
+                    env.ctx.class("prepare_parameters"); env.ctx.trace();
+                } } }
             }
             Job::Sets => {
                 let mut owner: HashMap<[u8; 48], String> = HashMap::new();
